@@ -90,7 +90,8 @@ func genSessionMsgs(r *rand.Rand, n int, L int, allowCopy bool) [][]byte {
 				kind = 'P'
 			}
 			if r.Intn(12) == 0 {
-				kind = byte(r.Intn(256))
+				// unknown kinds; NUL often: it must not end up raw inside the ErrorResponse text
+				kind = []byte{0, 0, 'x', 0xff, byte(r.Intn(256))}[r.Intn(5)]
 			}
 			msgs = append(msgs, msgDescribe(kind, pick(r, namePool)))
 		case k < 26:
@@ -105,7 +106,7 @@ func genSessionMsgs(r *rand.Rand, n int, L int, allowCopy bool) [][]byte {
 				kind = 'P'
 			}
 			if r.Intn(10) == 0 {
-				kind = byte(r.Intn(256))
+				kind = []byte{0, 0, 'x', 0xff, byte(r.Intn(256))}[r.Intn(5)]
 			}
 			msgs = append(msgs, msgClose(kind, pick(r, namePool)))
 		case k < 35:
